@@ -14,7 +14,8 @@ import numpy as np
 UINT32 = {"fl1_max", "fl1_npeaks", "fl2_max", "fl2_npeaks", "fl3_max", "fl3_npeaks", "index",
           "ml_class", "nevents"}
 UINT64 = {"frame"}
-IMAGES = {"image", "image_bg", "mask"}
+IMAGES = {"image", "image_bg", "mask", "qpi_oah", "qpi_oah_bg"}
+IMAGES_F32 = {"qpi_amp", "qpi_pha"}
 
 # documented types of the metadata keys the generator uses (C11 covers the whole table)
 INT_KEYS = {"event count", "run index", "roi position x", "roi position y", "roi size x",
@@ -121,6 +122,13 @@ class WriterModel:
             if feat == "mask" and data.dtype == bool:
                 data = data.astype(np.uint8) * 255
             self._append(feat, data.astype(np.uint8))
+        elif feat in IMAGES_F32:
+            if isinstance(data, (list, tuple)):
+                data = np.atleast_2d(data)
+            data = np.asarray(data)
+            if data.ndim == 2:
+                data = data[np.newaxis]
+            self._append(feat, data.astype(np.float32))
         elif shape is not None:
             data = np.asarray(data)
             if tuple(shape) == data.shape:
